@@ -174,6 +174,11 @@ class Check:
                     break
             if rp_any:
                 break
+        # solver-independent safety obligations raised by the numpy model (reduced-precision buffers) get the group's replay
+        for s in live:
+            for ob in s.obligations:
+                if ob.kind == "safety" and "double-precision-buffer" in ob.name and not (ob.meta or {}).get("replay") and rp_any:
+                    ob.meta = dict(ob.meta or {}, replay=dict(rp_any, args=dict(rp_any.get("args", {}), clause="float-accuracy")))
         for s in live:
             if s.outcome == "raise":
                 exc = getattr(s, "exception", None)
